@@ -712,7 +712,10 @@ class BasePlaceholderManager(MpfController):
 
     def _eval_unary_op(self, node, variables, subscribe):
         value, subscription = self._eval(node.operand, variables, subscribe)
-        return OPERATORS[type(node.op)](value), subscription
+        try:
+            return OPERATORS[type(node.op)](value), subscription
+        except TypeError:
+            raise TemplateEvalError(subscription)
 
     def _eval_compare(self, node, variables, subscribe):
         if len(node.ops) > 1:
